@@ -19,11 +19,54 @@ PROBES_EXPECTED = ('cache.safety_timeout_60', 'cache.cross_loop_wait', 'cache.ta
                    'cache.run_coro_ts_closed')
 
 
+# ---- fault enumeration part: stop the computing loop at EVERY scheduler step of its computation
+def _base(end, waiters, strat_seed):
+    threads = [{'arrive': 0.0, 'callers': [{'key': 0, 'at': 0.0}], 'life': 'await_all', 'end': end}]
+    for w in range(waiters):
+        threads.append({'arrive': 0.125 * (w + 1), 'callers': [{'key': 0, 'at': 0.0}], 'life': 'await_all', 'end': 'shutdown'})
+    prog = {'world': 'cache', 'profile': 'c05-sweep', 'cache': 'dict', 'nkeys': 1, 'threads': threads,
+            'invs': [{'dur': 1.0, 'out': 'value'}, {'dur': 0.125, 'out': 'value'}, {'dur': 0.125, 'out': 'value'}], 'faults': []}
+    strat = [('sticky', 0.1), ('sticky', 0.3), ('pct', 2, 300), ('uniform',), ('sticky', 0.02)][strat_seed % 5]
+    return {'prog': prog, 'sched': {'seed': 1000 + strat_seed, 'strategy': list(strat)}}
+
+
+BASES = [_base(end, w, s) for end in ('shutdown', 'close', 'leave') for w in (1, 2) for s in range(3)]
+_spans = {}
+
+
+def _span(bi):
+    """Steps [enter, exit] of the first computation of base case bi under its fixed schedule (fault-free run)."""
+    from .. import env
+    key = (bi, env.REPO)
+    if key not in _spans:
+        r = _cache.run_case(BASES[bi])
+        sp = r['inv_spans'][0] if r['inv_spans'] else (0, 0, 0, None)
+        _spans[key] = (sp[1], (sp[2] or sp[1]) + 25)
+    return _spans[key]
+
+
 def batches(tier):
     k = 1 if tier == 'quick' else 12
-    return [{'name': 'nofault', 'n': 4000 * k, 'profile': 'c05-nofault'},
-            {'name': 'faults', 'n': 20000 * k, 'profile': 'c05'}]
+    out = [{'name': 'nofault', 'n': 4000 * k, 'profile': 'c05-nofault'},
+           {'name': 'faults', 'n': 20000 * k, 'profile': 'c05'}]
+    nb = 6 if tier == 'quick' else len(BASES)
+    for bi in range(nb):
+        a, b = _span(bi)
+        out.append({'name': f'stop-sweep-{bi}', 'n': max(1, b - a + 1), 'profile': 'sweep', 'base': bi, 'first': a, 'chunk': 100})
+    return out
 
 
 def make_case(batch, seed):
+    if batch['profile'] == 'sweep':
+        import json
+        case = json.loads(json.dumps(BASES[batch['base']]))
+        case['prog']['faults'] = [{'kind': 'stop', 'on': 'abs', 'step': batch['first'] + batch['index'], 'thread': 0}]
+        return case
     return _cache.make_case(batch['profile'], seed)
+
+
+def extra_evidence(agg):
+    return {'fault_enumeration': 'stop-sweep-* batches stop the computing loop at every scheduler step between the entry of its '
+                                 'computation and 25 steps after its exit, for each fixed base program x schedule; the loop then ends by '
+                                 'Runner shutdown / close / being left stopped (per base)',
+            'exhaustive_dimension': 'stop step within the computation span of each fixed (program, schedule) base case'}
